@@ -304,6 +304,12 @@ func (fc *fileController) acquireReader(ctx context.Context, key uint16) (*contr
 func (fc *fileController) newReader(ctx context.Context, key uint16) (*controlledReader, error) {
 	_, span := fc.T.Bench(ctx, "new_reader")
 	defer span.End()
+	// The file is opened under the readers lock: garbage collection holds that lock (for
+	// reading) while it replaces the file with its compacted copy, so a handle opened
+	// before taking the lock could refer to the old file while the index already holds
+	// the offsets of the new one.
+	fc.readers.Lock()
+	defer fc.readers.Unlock()
 	file, err := fc.FS.Open(
 		fileKeyToName(key),
 		os.O_RDONLY,
@@ -316,7 +322,6 @@ func (fc *fileController) newReader(ctx context.Context, key uint16) (*controlle
 		ReaderAtCloser:  file,
 		controllerEntry: newPoolEntry(key, fc.release, fc.Instrumentation),
 	}
-	fc.readers.Lock()
 	f, ok := fc.readers.files[key]
 	if !ok {
 		fc.readers.files[key] = &fileReaders{open: []controlledReader{r}}
@@ -325,7 +330,6 @@ func (fc *fileController) newReader(ctx context.Context, key uint16) (*controlle
 		fc.readers.files[key].open = append(fc.readers.files[key].open, r)
 		f.Unlock()
 	}
-	fc.readers.Unlock()
 	return &r, err
 }
 
